@@ -46,7 +46,8 @@ RULE   = ('seeded gated histories as C01 (with cancels, named envs, raptor '
 ASSUMPTIONS = ['a task "fits" when a rank assignment exists that respects '
                'per-node free cores/GPUs/lfs/mem and ranks_per_node',
                'bounded progress: K=4 loop iterations']
-SHARDS   = {'quick': 8, 'thorough': 16}
+SHARDS   = {'quick': 16, 'thorough': 16}
+TIMEOUT  = {'quick': 600, 'thorough': 5400}
 REQUIRED = {'partition_checks': 20000, 'outcome_reports': 3000,
             'progress_points': 300, 'idle_points': 100, 'alone_checks': 30,
             'priority_scenarios': 100, 'failures_checked': 100}
